@@ -590,6 +590,10 @@ def check(ctx, rep):
     from .c06 import rule_rule_keyed
 
     rule_rule_keyed(ctx, rep)
+    from .c12 import rule_location_file_verbatim
+
+    # findings reach a file only under the very path the directory walk yields for it
+    rule_location_file_verbatim(ctx, rep)
     rep.not_covered += [
         "agreement of semgrep positions with libcst positions for all spellings (line/column matching)",
         "semgrep's matching semantics in general (metavariable unification, taint propagation)",
